@@ -83,6 +83,11 @@ Definition ok_chain_hist (c : flavour * bool * list mw * option (list mw) * nat 
   list_eqb event_eqb (nth_request fw ftl ms strict warm) obs.
 Definition mismatches_chain_hist := mismatches ok_chain_hist.
 
+(** gin, middlewares that pass, abort or write-and-pass, no strict layer: the observed trace *)
+Definition ok_gin_writes (c : list gmw * list event) : bool :=
+  list_eqb event_eqb (gin_loop template_stop (combine (seq 0 (List.length (fst c))) (fst c)) false [EHandler]) (snd c).
+Definition mismatches_gin_writes := mismatches ok_gin_writes.
+
 (** C03 *)
 From V Require Import Model.Route.
 
@@ -198,6 +203,13 @@ Definition ok_wrapper (c : list param * list wevent) : bool :=
   list_eqb wevent_eqb (wrapper 0 (fst c)) (snd c).
 Definition mismatches_wrapper := mismatches ok_wrapper.
 
+(** query parameters next to a form body: (declared (name, required), states found in the query string, states of the
+    body's fields, handler called) *)
+Definition ok_form (c : list (string * bool) * list (string * presence) * list (string * presence) * bool) : bool :=
+  let '(decl, q, b, obs) := c in
+  Bool.eqb (handler_called (qwrapper read_query decl {| in_query := q; in_body := b |})) obs.
+Definition mismatches_form := mismatches ok_form.
+
 (** C18 *)
 From V Require Import Model.Security.
 
@@ -248,6 +260,11 @@ Definition ok_visit (c : rcell * supplied * (nat * option string * list (string 
   let w := visit r v in
   Nat.eqb (w_status w) st && opt_eqb String.eqb (w_ctype w) ct && list_eqb pair_eqb (w_headers w) hdrs.
 Definition mismatches_visit := mismatches ok_visit.
+
+(** what the chain handed back, and whether the reply was an error reply (status >= 400) *)
+Definition ok_tail (c : chain_result * bool) : bool :=
+  Bool.eqb (outcome_eqb (deliver (fst c)) OErrorPath) (snd c).
+Definition mismatches_tail := mismatches ok_tail.
 
 Definition ok_bodies (c : list string * string * list string) : bool :=
   let '(declared, ct, obs) := c in list_eqb String.eqb (bodies_decoded declared ct) obs.
@@ -301,6 +318,11 @@ Definition mismatches_field := mismatches ok_field.
 Definition ok_type (c : otype * string * option string) : bool :=
   let '(t, f, obs) := c in opt_eqb String.eqb (go_type t f) obs.
 Definition mismatches_type := mismatches ok_type.
+
+(** (old-aliasing, disable-type-aliases-for-type has "array", kind of the named type, declared with "=") *)
+Definition ok_alias (c : bool * bool * tkind * bool) : bool :=
+  let '(old, dis, k, obs) := c in Bool.eqb (declared_as_alias old dis k) obs.
+Definition mismatches_alias := mismatches ok_alias.
 
 (** C10: observed = result of mergeOpenapiSchemas on two schemas (None = error):
     (type, format, required in order, property names sorted with their schema identity, additionalProperties). *)
@@ -465,3 +487,11 @@ Definition ok_cmdmap (c : string * option (list (string * string))) : bool :=
   | _, _ => false
   end.
 Definition mismatches_cmdmap := mismatches ok_cmdmap.
+
+(** C02, one loaded document generated n times: (embedded-spec, local component names, components of other documents the
+    document refers to, for each generation the watched names that were declared as local types) *)
+From V Require Import Model.Det.
+Definition ok_onedoc (c : bool * list string * list string * list (list string)) : bool :=
+  let '(emb, locals, ext, obs) := c in
+  list_eqb (list_eqb String.eqb) (declared_of emb {| ld_locals := locals; ld_external := ext |} ext (List.length obs)) obs.
+Definition mismatches_onedoc := mismatches ok_onedoc.
